@@ -368,7 +368,18 @@ def atc_multiply(case, ctx):
     ni, no = ccl.atco_inp.nao, ccl.atco_out.nao
     na, nb = ccl.nalpha, ccl.num_out
     ctx.event("threads=%d" % case["threads"])
-    use_none = case["out_none"] and not (ccl.is_vk and ni != no)
+    # ConvolutionCollectionK documents `output` as optional.  On trees where the default allocation
+    # has the wrong size (fixed in repo commit d53b5fd) the adjoint tests still run with explicit
+    # outputs and the defect is reported under its own signature at the end.
+    vk_default_broken = False
+    if ccl.is_vk:
+        try:
+            ccl.multiply_atc_integrals(np.zeros((ni, na)), fwd=True)
+            ccl.multiply_atc_integrals(np.zeros((no, nb)), fwd=False)
+            ctx.event("vk_default_output_ok")
+        except AssertionError:
+            vk_default_broken = True
+    use_none = case["out_none"] and not vk_default_broken
 
     def A(x):
         inp = np.ascontiguousarray(x.reshape(ni, na))
@@ -390,25 +401,25 @@ def atc_multiply(case, ctx):
 
     with threads(case["threads"]):
         adjoint_suite(ctx, "atc_vk" if ccl.is_vk else "atc", A, B, ni * na, no * nb, case["seed"], dense_limit=700)
-    if ccl.is_vk and ni != no:
-        # documented: "output (optional) ... If None, output is initialized within the function and
-        # then returned".  Probed last so that the adjoint tests above always run.
-        try:
-            ccl.multiply_atc_integrals(np.zeros((ni, na)), fwd=True)
-        except AssertionError:
-            ctx.check(False, ("vk_default_output", "AssertionError"), nao_inp=ni, nao_out=no)
+    ctx.check(not vk_default_broken, ("vk_default_output", "AssertionError"), nao_inp=ni, nao_out=no)
 
 
 # ----------------------------------------------------------------------------------------------
 # 4./5. orbital basis <-> spline <-> grid
 
 @st.composite
-def st_interp(draw, small=False):
+def st_interp(draw, small=False, force_lmax0=False):
     n1 = draw(st.sampled_from([0, 0, 1, 2]))
     n0 = draw(st.integers(0 if n1 else 1, 3 if small else 4))
-    lay = draw(G.st_synth_layout(max_natm=3, max_l=3 if small else 4, max_nexp=2 if small else 3,
+    # s-only bases (interpolator nlm = 1) are legal without vector features; they used to overrun the
+    # spherical-harmonic buffers (repo commit 63ed02b)
+    lmax0 = force_lmax0 or (n1 == 0 and draw(st.integers(0, 7)) == 0)
+    if lmax0:
+        n1 = 0
+        n0 = max(n0, 1)
+    lay = draw(G.st_synth_layout(max_natm=3, max_l=0 if lmax0 else (3 if small else 4), max_nexp=2 if small else 3,
                                  max_nrad=4 if small else 8, lebedev=[6, 14] if small else None,
-                                 min_l=1 if n1 else 0, min_l_first=1))
+                                 min_l=1 if n1 else 0, min_l_first=0 if lmax0 else 1))
     nrad = draw(st.integers(3, 12) if small else st.integers(4, 40))
     return {"layout": lay, "n0": n0, "n1": n1, "nrad": nrad, "aparam": draw(G.pfloat(0.02, 0.08)),
             "rmax": draw(G.pfloat(0.7, 30.0)),
@@ -437,6 +448,8 @@ def orb_spline(case, ctx):
     shape_s = (atco.natm, it.nrad, it.nlm, 4, nout_q)
     ctx.event("n0=%d,n1=%d" % (case["n0"], case["n1"]))
     ctx.event("threads=%d" % case["threads"])
+    if it.nlm == 1:
+        ctx.event("lmax=0")
     if case["n1"] > 0 or len(lay["atoms"]) >= 2:
         ctx.nontrivial(interp_key(case))
     rng = rng_from(case["seed"])
@@ -547,6 +560,8 @@ def spline_grid(case, ctx):
     ctx.event("n0=%d,n1=%d" % (case["n0"], case["n1"]))
     ctx.event("idx=" + lay["idx"]["mode"])
     ctx.event("threads=%d" % case["threads"])
+    if it.nlm == 1:
+        ctx.event("lmax=0")
     far = int(np.sum(np.linalg.norm(it.all_coords[:, None, :] - L.atom_coords[None], axis=2) > case["rmax"]))
     if far:
         ctx.event("points_beyond_last_knot")
@@ -850,3 +865,37 @@ def composite_conv(case, ctx):
 
     with threads(case["threads"]):
         adjoint_suite(ctx, "composite:" + ns["plan"], A, B, ng * na, ngout * nout, case["seed"], nrand=2, normwise=fac)
+
+
+# ----------------------------------------------------------------------------------------------
+# 9. s-only bases (nlm = 1) under the sanitizer build
+
+@st.composite
+def st_lmax0(draw):
+    if draw(st.booleans()):
+        inner = draw(st_interp(small=True, force_lmax0=True))
+        inner["threads"] = draw(st.sampled_from([1, 3]))
+        return {"mode": "synth", "inner": inner}
+    ns = draw(G.st_nldf())
+    ns["l1"] = []          # vector features need lmax >= 1 (documented l-1 construction)
+    if ns["kind"] in ("i", "ij") and not ns.get("l0"):
+        ns["l0"] = ["se_ap"]
+    ns["nrad"] = 60
+    lay = draw(G.st_real_layout(mols=("He", "H2", "HF"), levels=(0,), lmaxs=(0,)))
+    return {"mode": "real", "inner": {"layout": lay, "nldf": ns, "threads": draw(st.sampled_from([1, 3])), "seed": draw(SEED)}}
+
+
+@subcheck("C05", "lmax0_asan", st_lmax0, quick=24, thorough=300, variant="asan", max_shards=8,
+          rule="s-only expansion bases (interpolator nlm = 1): the spline_grid checks on synthetic all-s layouts and the "
+               "real_interp checks on PyscfNLDFGenerator.from_mol_and_settings(..., lmax=0) for He/H2/HF, run with the "
+               "ASan+UBSan build of the C libraries (a sanitizer report is a violation of the case in flight); regression "
+               "stratum for the lmax = 0 overrun of recursive_sph_harm (repo commit 63ed02b); non-trivial always",
+          tolerances={"dot_rtol": RTOL, "entry_rtol": RTOL, "entry_floor": FLOOR})
+def lmax0_asan(case, ctx):
+    ctx.event("mode=" + case["mode"])
+    ctx.nontrivial([case["mode"], case["inner"].get("itype"), case["inner"].get("nldf", {}).get("kind"),
+                    case["inner"].get("nldf", {}).get("interp"), case["inner"]["seed"] % 7])
+    if case["mode"] == "synth":
+        spline_grid(case["inner"], ctx)
+    else:
+        real_interp(case["inner"], ctx)
